@@ -101,6 +101,7 @@ def run(ctx, tier):
         if len(p['containers']) >= 2:
             n_bal += 1
             _balance(ctx, p, r_bal)
+            _reached(ctx, p, r_bal)
     if n_bal < 1:
         r_bal.violations.append(Violation('C16', 'C16.balance', 'oxmpl', 'floor', 'no bidirectional planner found (floor 1)'))
     r_ext = RuleResult('C16.extend', 'once a sample is drawn the iteration extends the tree unless the motion (or the state) is rejected')
@@ -172,6 +173,52 @@ def _extend(ctx, p, r_ext):
                     'C16', 'C16.extend', b.path, 'skip',
                     'the extension helper can return without adding a node although no motion check or validity query failed', loc=b.loc(0)))
     return count
+
+
+def _reached(ctx, p, r_bal):
+    """the two branches of a bidirectional planner are joined on the premise that the node the connect step added IS the
+    target node's state (the path assembly drops one of the two copies).  So the extension step may answer `Reached` only
+    where the state it adds is the target itself, never a steered (interpolated) state however close: no `Reached` result
+    literal is reachable from the steering interpolation unless the state is assigned the target in between."""
+    from ..engine import CLONE as CLONE_PATHS
+    for (fn, b, bi, t) in steer_sites(ctx, p):
+        lits = []
+        for lb, blk in enumerate(fn.blocks):
+            if blk['cleanup']:
+                continue
+            for si, st in enumerate(blk['stmts']):
+                if st['k'] == 'assign' and st['rv']['k'] == 'agg' and st['rv'].get('agg') == 'adt' and \
+                        st['rv'].get('variant_name') == 'Reached' and str(st['rv'].get('adt', '')).startswith(p['module']):
+                    lits.append((lb, si))
+        if not lits:
+            continue
+        # the steered state (out argument of the interpolation) and where it is overwritten by the target itself
+        out = t['args'][4] if len(t['args']) > 4 else None
+        opl = (out.get('move') or out.get('copy')) if out else None
+        root = fn.borrow_root(opl['l']) if opl is not None else None
+        out_local = root[0] if root is not None else (opl['l'] if opl is not None else None)
+        tgt_terms = strip_clone(fn.arg_terms(t, 2, bi))
+        stops = set()
+        for cb, ct in b.calls():
+            if ct['dest']['l'] == out_local and not ct['dest']['p'] and ct['func'].get('path') in CLONE_PATHS:
+                if strip_clone(fn.arg_terms(ct, 0, cb)) == tgt_terms:
+                    stops.add(cb)
+        for lb2, blk2 in enumerate(fn.blocks):
+            for si2, st2 in enumerate(blk2['stmts']):
+                if st2['k'] == 'assign' and st2['place']['l'] == out_local and not st2['place']['p'] and st2['rv']['k'] == 'use':
+                    if strip_clone(fn.rvalue_terms(st2['rv'], (lb2, si2))) == tgt_terms:
+                        stops.add(lb2)
+        start = t.get('target')
+        reach = fn.reachable(start, stop=frozenset(stops)) if start is not None else set()
+        bad = [(lb, si) for (lb, si) in lits if lb in reach and lb not in stops]
+        r_bal.inst('%s: `Reached` is answered only where the added state is the target itself (%d result literal(s))' % (b.path, len(lits)),
+                   ok=not bad, site=b.loc(bi))
+        for o, (lb, si) in enumerate(bad):
+            r_bal.violations.append(Violation(
+                'C16', 'C16.balance', b.path, 'reached-not-target',
+                'the extension step can answer `Reached` (at %s) for a state produced by the steering interpolation at %s: the node '
+                'added is then not the target state, and joining the two branches on it drops or skips a real node' % (fn.loc(lb, si), fn.loc(bi)),
+                loc=fn.loc(lb, si), ordinal=o))
 
 
 def _nearest(ctx, p, fn, b, bi, t, info):
